@@ -1336,6 +1336,12 @@ func (p *constructPlan) Execute(ctx context.Context) (*table.Table, error) {
 	// The buffered channel has capacity to accommodate twice the amount of triples stored in a single call.
 	tripChan := make(chan *triple.Triple, 2*p.bulkSize)
 	done := make(chan bool)
+	// On failure stop the updates and wait for the ones in flight before returning.
+	fail := func(err error) (*table.Table, error) {
+		close(tripChan)
+		<-done
+		return nil, err
+	}
 
 	go func() {
 		var ts []*triple.Triple
@@ -1378,13 +1384,13 @@ func (p *constructPlan) Execute(ctx context.Context) (*table.Table, error) {
 		for _, r := range tbl.Rows() {
 			t, err := p.processConstructClause(cc, tbl, r)
 			if err != nil {
-				return nil, err
+				return fail(err)
 			}
 			if len(cc.PredicateObjectPairs()) > 1 {
 				// We need to reify a blank node.
 				rts, bn, err := t.Reify()
 				if err != nil {
-					return nil, fmt.Errorf("triple.Reify failed to reify %v with error %v", t, err)
+					return fail(fmt.Errorf("triple.Reify failed to reify %v with error %v", t, err))
 				}
 				for _, trpl := range rts[1:] {
 					tripChan <- trpl
@@ -1392,11 +1398,11 @@ func (p *constructPlan) Execute(ctx context.Context) (*table.Table, error) {
 				for _, pop := range cc.PredicateObjectPairs()[1:] {
 					rprd, robj, err := p.processPredicateObjectPair(pop, tbl, r)
 					if err != nil {
-						return nil, err
+						return fail(err)
 					}
 					rt, err := triple.New(bn, rprd, robj)
 					if err != nil {
-						return nil, err
+						return fail(err)
 					}
 					tripChan <- rt
 				}
